@@ -23,6 +23,9 @@ import time
 
 ROOT = os.path.dirname(os.path.abspath(__file__))
 SIM = os.path.join(ROOT, "sim")
+# where evidence, replay files and stall dumps go (seeded_eval.py points it at a
+# scratch directory so that runs against a patched tree leave /verif alone)
+OUT = os.environ.get("VERIF_OUTDIR") or ROOT
 REPO = "/repo"
 GO = "go1.26.8"
 
@@ -226,7 +229,7 @@ def search(prop, family, meta, tier, seed, workers, budget, binary, scratch, t0,
         except OSError:
             pass
         if p.returncode == 3 or os.path.exists(env["VERIF_STALLFILE"]):
-            stall_dir = os.path.join(ROOT, "evidence", "stalls")
+            stall_dir = os.path.join(OUT, "evidence", "stalls")
             os.makedirs(stall_dir, exist_ok=True)
             dst = os.path.join(stall_dir, "%s-%s.txt" % (prop, cur))
             try:
@@ -283,7 +286,7 @@ def search(prop, family, meta, tier, seed, workers, budget, binary, scratch, t0,
     violations = []   # (class, replay path)
     known_hit = {}
     harness = list(trouble)
-    replay_dir = os.path.join(ROOT, "replays")
+    replay_dir = os.path.join(OUT, "replays")
     os.makedirs(replay_dir, exist_ok=True)
 
     # process crashes: confirm by re-running the seed alone
@@ -470,8 +473,8 @@ def search(prop, family, meta, tier, seed, workers, budget, binary, scratch, t0,
         "known_findings_reproduced": sorted(known_hit),
         "repo": repo_describe(),
     }
-    os.makedirs(os.path.join(ROOT, "evidence"), exist_ok=True)
-    json.dump(ev, open(os.path.join(ROOT, "evidence", prop + ".json"), "w"), indent=1)
+    os.makedirs(os.path.join(OUT, "evidence"), exist_ok=True)
+    json.dump(ev, open(os.path.join(OUT, "evidence", prop + ".json"), "w"), indent=1)
 
     log("%s %s: %d runs (%d distinct non-trivial), %.0f simulated s, %.1fs wall" %
         (prop, tier, runs, distinct, sim_s, wall))
